@@ -67,13 +67,36 @@ package adminapi
 //@   results n, err
 //@   ensures well_formed_gives_network: err == nil ==> n != nil
 //@   ensures malformed_is_an_error: !cidr_ok(cidr) && !ip_ok(cidr) ==> err != nil
-// NewIPFilter: contract stated, NOT verified (its two append loops need invariants that the solvers do not
-// discharge reliably); it is listed as an assumed contract in the evidence of every check that uses it. The
-// clause the property needs from it - an error means no filter object - is visible on every return path.
+// NewIPFilter: every entry of both lists becomes one rule, in order; the first malformed entry ends the
+// construction with an error and no filter object (so a blank or mistyped entry can never shrink a list).
+//@ pred cidrEntryOK(s string) := cidr_ok(s) || ip_ok(s)
 //@ func NewIPFilter
+//@   props C10
 //@   results f, err
 //@   ensures built: err == nil ==> f != nil && fresh(f) && listOK(f.allowList) && listOK(f.denyList)
 //@   ensures malformed_entry_gives_no_filter: err != nil ==> f == nil
+//@   ensures one_rule_per_entry: err == nil ==> len(f.allowList) == len(allowList) && len(f.denyList) == len(denyList)
+//@   ensures accepted_lists_are_well_formed: err == nil ==> (forall i int :: {allowList[i]} 0 <= i && i < len(allowList) ==> cidrEntryOK(allowList[i]))
+//@             && (forall i int :: {denyList[i]} 0 <= i && i < len(denyList) ==> cidrEntryOK(denyList[i]))
+//@ loop NewIPFilter #0
+//@   props C10
+//@   invariant idx: rangeindex < len(allowList)
+//@   invariant own: filter != nil && !preexisting(ptr(filter)) && len(filter.denyList) == 0
+//@   invariant one_rule_each: len(filter.allowList) == rangeindex + 1 && listOK(filter.allowList)
+//@   invariant backing_own: !preexisting(filter.allowList.base) && !preexisting(filter.denyList.base) && allocated(filter.allowList.base) && allocated(filter.denyList.base)
+//@   invariant seen_ok: forall k int :: {allowList[k]} 0 <= k && k <= rangeindex ==> cidrEntryOK(allowList[k])
+//@   invariant others_kept: forall x int :: {backing(x, []*net.IPNet)} preexisting(x) ==> backing(x, []*net.IPNet) == old(backing(x, []*net.IPNet))
+//@   decreases len(allowList) - rangeindex
+//@ loop NewIPFilter #1
+//@   props C10
+//@   invariant idx: rangeindex < len(denyList)
+//@   invariant own: filter != nil && !preexisting(ptr(filter)) && len(filter.allowList) == len(allowList) && listOK(filter.allowList)
+//@   invariant one_rule_each: len(filter.denyList) == rangeindex + 1 && listOK(filter.denyList)
+//@   invariant backing_own: !preexisting(filter.allowList.base) && !preexisting(filter.denyList.base) && allocated(filter.allowList.base) && allocated(filter.denyList.base)
+//@   invariant allow_ok: forall k int :: {allowList[k]} 0 <= k && k < len(allowList) ==> cidrEntryOK(allowList[k])
+//@   invariant seen_ok: forall k int :: {denyList[k]} 0 <= k && k <= rangeindex ==> cidrEntryOK(denyList[k])
+//@   invariant others_kept: forall x int :: {backing(x, []*net.IPNet)} preexisting(x) ==> backing(x, []*net.IPNet) == old(backing(x, []*net.IPNet))
+//@   decreases len(denyList) - rangeindex
 
 // ---- the mux: every route except /v1/health is registered through auth(); with IP lists configured the
 // handler returned is never the bare mux (filter middleware, or a refuse-all handler when a list is malformed)
